@@ -2,7 +2,7 @@
 # usage: tools/seedrun.sh C05 a [props...]  -- apply a seeded patch to a scratch copy of the package, run the check(s) there, undo
 id=$1; v=$2; shift 2
 props=${@:-$id}
-wt=/tmp/wt/$id
+wt=/tmp/wt/$id-$v-$$
 dir=/verif/seeded/$id-$v; [ -d $dir ] || dir=/tmp/seeds/$id/$v
 rm -rf $wt; mkdir -p $wt && cp -r /repo/cryocat $wt/
 cd $wt && git apply $dir/patch.diff || { echo "APPLY-FAILED $id $v"; exit 3; }
